@@ -23,7 +23,8 @@ package main
 //	Emit         write / assign / exit, or an append whose target is not sorted afterwards in the function
 //	Delegate     a call statement and none of the above
 //	CollectSort  appends only to targets that are sorted after the loop (sort.Strings/Ints/Slice/SliceStable/
-//	             Sort/Stable or a .Sort*() method on the target), possibly with map stores
+//	             Sort/Stable, a .Sort*() method on the target, or a local helper whose name starts with
+//	             "sort" taking the target first), possibly with map stores
 //	MapInsert    map stores / deletes only
 //	LogOnly      logger calls only
 //	Reduce       counters / probes only
@@ -341,13 +342,18 @@ func classifyRange(si *srcImporter, info *types.Info, fd *ast.FuncDecl, rs *ast.
 var sortFuncs = map[string]bool{"Strings": true, "Ints": true, "Float64s": true, "Slice": true, "SliceStable": true, "Sort": true, "Stable": true}
 
 // sortedAfter: is there, after the loop and in the same function, a call sort.X(<expr mentioning tgt>, ...)
-// or <tgt>.Sort...() ?
+// or <tgt>.Sort...() or a local helper sort...(<tgt>, ...) ?
 func sortedAfter(si *srcImporter, fd *ast.FuncDecl, rs *ast.RangeStmt, tgt string) bool {
 	found := false
 	ast.Inspect(fd.Body, func(n ast.Node) bool {
 		call, ok := n.(*ast.CallExpr)
 		if !ok || call.Pos() < rs.End() {
 			return true
+		}
+		// a package-local helper named sort...(tgt, ...) (database.sortNamesByLine)
+		if id, ok := call.Fun.(*ast.Ident); ok && len(call.Args) > 0 &&
+			strings.HasPrefix(strings.ToLower(id.Name), "sort") && nodeSrc(si, call.Args[0]) == tgt {
+			found = true
 		}
 		sel, ok := call.Fun.(*ast.SelectorExpr)
 		if !ok {
